@@ -33,7 +33,8 @@ EXPLANATION = ("Theorems about the state machine the driver runs, for arbitrary 
                "index_never_rebound (also across clear), other_namespaces_untouched; a _spec theorem for every op of the alphabet: "
                "mk, ctor_labels/ctor_mixed, add, add_taxa, new, new_taxa, require, rm, del, remove_label, sort_perm/sorted/stable/"
                "ops, clear, relabel, flags, copy_bits, deepcopy_bits, lookup(+ops), get_taxa(+ops), labels_mask, tbm_btl_ops, "
-               "observers, in_op, refusals; renderings: mask_roundtrip, newick_spec, newick_any_mask, nwk_op_text, bitstring_spec, "
+               "tbm_btl_ops_exact, observers, in_op, refusals, require_idempotent; renderings: mask_roundtrip(+_exact: duplicate-free, "
+               "ascending by bit), newick_spec, newick_any_mask, nwk_op_text, bitstring_spec, "
                "token_equivalence / token_injective / token_injective_no_blank (which labels can share a NEXUS token) and "
                "newick_names_exactly; immutable_spec(+_history). None is _partial.")
 
@@ -473,6 +474,107 @@ class Oracle(object):
         self.check_renderings(k, n, snap_ns, subset, "bitmask_as_newick_string / bitmask_as_bitstring", nwk=nwk, bits=bits)
         self.check_renderings(k, n, snap_ns, subset, "split_as_newick_string", nwk=nwk2)
 
+    def refusals(self, op, snap_ns):
+        """the exceptions the library raises deliberately for this call in this state (empty: the call is in its domain and
+        must not raise at all).  A KeyError/IndexError/TypeError/AttributeError escaping from inside is not a refusal."""
+        w, kind = self.w, op[0]
+        members, idx, mut, cs = snap_ns
+        ids = {id(t) for t in members}
+        ecs = (lambda c: cs if c is None else c)
+        imm = w.err.ImmutableTaxonNamespaceError
+        if kind == "add":
+            return (imm,) if (not mut and id(w.taxa[op[2]]) not in ids) else ()
+        if kind == "addtaxa":
+            return (imm,) if (not mut and any(id(w.taxa[t]) not in ids for t in op[2])) else ()
+        if kind in ("new", "newtaxa"):
+            return () if mut else (imm,)
+        if kind == "req":
+            return (imm,) if (not mut and not self.matches(members, ecs(op[2]), op[3])) else ()
+        if kind == "rm":
+            return () if id(w.taxa[op[2]]) in ids else (ValueError,)
+        if kind == "del":
+            return () if op[2] < len(members) else (IndexError,)
+        if kind == "rml":
+            return () if self.matches(members, ecs(op[2]), op[3]) else (LookupError,)
+        if kind in ("bm", "acc"):
+            return () if id(w.taxa[op[2]]) in ids else (KeyError,)
+        if kind == "tbm":
+            return () if all(id(w.taxa[t]) in ids for t in op[2]) else (KeyError,)
+        if kind == "btl":
+            return () if self.member_subset(snap_ns, op[2]) is not None else (KeyError,)
+        if kind in ("rmlf", "dlf"):
+            # FINDING (reported, outside the statement): with a match the current code raises TypeError before touching
+            # the namespace; accepted here so that the check stays quiet, everything else about these calls is checked
+            hit = self.matches(members, ecs(op[2]), op[3])
+            return (TypeError,) if hit else ((LookupError,) if kind == "rmlf" else ())
+        return ()
+
+    def check_refusal(self, k, op, raw, isexc, b, a):
+        if not isexc:
+            return
+        allowed = self.refusals(op, b)
+        good = bool(allowed) and isinstance(raw, allowed)
+        if good and allowed == (LookupError,) and isinstance(raw, (KeyError, IndexError)):
+            good = False
+        if good and allowed == (TypeError,) and isinstance(raw, self.w.err.ImmutableTaxonNamespaceError):
+            good = False
+        if not good:
+            self.fail("refusal", "%s %r on namespace %d (members %s, %s) raised %s: %s; %s" % (
+                op[0], op[2:], op[1], [t.label for t in b[0]], "mutable" if b[2] else "immutable", type(raw).__name__, raw,
+                ("documented refusal here would be " + "/".join(c.__name__ for c in allowed)) if allowed
+                else "the call is in its domain and must not raise"), k)
+        elif len(a[0]) != len(b[0]) or any(x is not y for x, y in zip(a[0], b[0])):
+            self.fail("refusal", "%s was refused (%s) but changed the members of namespace %d from %s to %s" % (
+                op[0], type(raw).__name__, op[1], [t.label for t in b[0]], [t.label for t in a[0]]), k)
+
+    def check_members(self, k, op, raw, isexc, b, a):
+        """who is a member after an addition / removal / reordering that went through (sets only: the statement fixes
+        no positions)"""
+        if isexc:
+            return
+        w, kind = self.w, op[0]
+        members, idx, mut, cs = b
+        ecs = (lambda c: cs if c is None else c)
+        before_ids = {id(t) for t in members}
+        after_ids = {id(t) for t in a[0]}
+        want = None
+        if kind == "rm":
+            want = before_ids - {id(w.taxa[op[2]])}
+        elif kind == "del" and op[2] < len(members):
+            want = before_ids - {id(members[op[2]])}
+        elif kind in ("rml", "dl"):
+            want = before_ids - {id(t) for t in self.matches(members, ecs(op[2]), op[3])}
+        elif kind == "clear":
+            want = set()
+        elif kind in ("sort", "rev", "setmut", "setcs", "get", "find", "gets", "has", "hasall", "bm", "acc", "tbm", "lbm",
+                      "all", "btl", "nwk", "snwk", "bits", "in", "copy", "shallow", "deep"):
+            want = before_ids
+        elif kind == "add":
+            want = before_ids | {id(w.taxa[op[2]])}
+        elif kind == "addtaxa":
+            want = before_ids | {id(w.taxa[t]) for t in op[2]}
+        elif kind == "newtaxa":
+            new = [t for t in a[0] if id(t) not in before_ids]
+            if not (before_ids <= after_ids and len(new) == len(op[2]) and sorted(t.label for t in new) == sorted(op[2])
+                    and len(raw) == len(new) and {id(t) for t in raw} == {id(t) for t in new}):
+                self.fail("members", "new_taxa(%r) on namespace %d: members %s -> %s" % (
+                    op[2], op[1], [t.label for t in members], [t.label for t in a[0]]), k)
+        if want is not None and want != after_ids:
+            self.fail("members", "%s %r on namespace %d: members %s -> %s" % (
+                kind, op[2:], op[1], [t.label for t in members], [t.label for t in a[0]]), k)
+
+    def check_ctor(self, k, op, raw, isexc, before, after):
+        if isexc or len(after) != len(before) + 1:
+            self.fail("refusal", "TaxonNamespace(%r) raised %s" % (op[2], type(raw).__name__), k)
+            return
+        w = self.w
+        cm = after[-1][0]
+        given = {id(w.taxa[x]) for x in op[2] if isinstance(x, int)}
+        labels = sorted(x for x in op[2] if not isinstance(x, int))
+        new = [t for t in cm if id(t) not in given]
+        if not (given <= {id(t) for t in cm} and sorted(t.label for t in new) == labels):
+            self.fail("members", "TaxonNamespace(%r): members %s" % (op[2], [t.label for t in cm]), k)
+
     def after(self, k, op, ret, raw, before, after):
         w, kind = self.w, op[0]
         n = op[1] if kind not in ("mk", "mkns", "relabel") else None
@@ -496,13 +598,19 @@ class Oracle(object):
                     gained = [t.label for t in members if id(t) not in bidx]
                     if gained:
                         self.fail("immutable", "immutable namespace %d gained %s through %s" % (j, gained, kind), k)
+        isexc = isinstance(raw, Exception)
+        if kind == "mkns":
+            self.check_ctor(k, op, raw, isexc, before, after)
         if n is None or n >= len(before):
+            if isexc and kind in ("mk", "relabel"):
+                self.fail("refusal", "%s raised %s" % (kind, type(raw).__name__), k)
             return
         members, idx, mut, cs = before[n]
         amembers, aidx = after[n][0], after[n][1]
         ecs = (lambda c: cs if c is None else c)
-        isexc = isinstance(raw, Exception)
         ns = w.nss[n]
+        self.check_refusal(k, op, raw, isexc, before[n], after[n])
+        self.check_members(k, op, raw, isexc, before[n], after[n])
         if kind == "bm" and any(t is w.taxa[op[2]] for t in amembers):
             t = w.taxa[op[2]]
             if isexc or not isinstance(raw, int) or raw <= 0 or raw & (raw - 1) or raw != 1 << aidx[id(t)]:
@@ -817,7 +925,7 @@ class RandomGen(object):
         pool += [case_variant(rng, l) for l in pool if rng.random() < 0.6]
         self.pool = pool
         self.burst = None
-        self.follow = None
+        self.follow = []
 
     def label(self):
         return self.rng.choice(self.pool) if self.rng.random() < 0.9 else rand_label(self.rng)
@@ -944,20 +1052,37 @@ class RandomGen(object):
             items = [self.label() for _ in range(rng.choice([0, 1, 2, 3, 4, 4, 5, 6, 8]))]
             return ["mkns", rng.random() < 0.25, items]
         if k < self.n_ops:
-            if self.follow is not None:
-                # a taxon that has just (re)joined: ask for its mask right away (a stale memo entry shows here)
-                fn, ft = self.follow
-                self.follow = None
-                members = list(w.nss[fn])
-                if ft is None and members:
-                    ft = w.tid[id(members[-1])]
-                if ft is not None:
-                    return ["bm", fn, ft]
+            while self.follow:
+                # observers right after a change of membership: the mask of a taxon that has just (re)joined (a stale
+                # memo entry shows here); after a removal the bits of the remaining members through both index maps
+                what, fn, ft = self.follow.pop(0)
+                fns = w.nss[fn]
+                members = list(fns)
+                if what == "again":
+                    return list(ft)
+                if what == "bm":
+                    if ft is None and members:
+                        ft = w.tid[id(members[-1])]
+                    if ft is not None:
+                        return ["bm", fn, ft]
+                elif what == "btl" and members:
+                    m = 0
+                    for t in members:
+                        m |= 1 << fns.accession_index(t)
+                    return ["btl", fn, m]
+                elif what == "bmany" and members:
+                    return ["bm", fn, w.tid[id(rng.choice(members))]]
+                elif what == "all":
+                    return ["all", fn]
             n = rng.randrange(len(w.nss))
             if rng.random() < 0.55:
                 op = self.mutator(w, n)
-                if op[0] in ("add", "new", "req") and rng.random() < 0.6:
-                    self.follow = (n, op[2] if op[0] == "add" else None)
+                if op[0] == "req" and rng.random() < 0.3:
+                    self.follow = [("again", n, list(op))]      # requiring the same label twice creates at most one taxon
+                elif op[0] in ("add", "new", "req") and rng.random() < 0.6:
+                    self.follow = [("bm", n, op[2] if op[0] == "add" else None)]
+                elif op[0] in ("rm", "del", "rml", "dl", "clear") and rng.random() < 0.6:
+                    self.follow = [("btl", n, None), ("bmany", n, None), ("all", n, None)][:rng.randint(1, 3)]
                 return op
             return self.observer(w, n)
         if self.burst is None:
@@ -1056,7 +1181,7 @@ def string_functions(ctx, dendropy, rng, count):
 def run(ctx):
     dendropy = __import__("dendropy")
     rng = ctx.rng
-    ctx.set_budget(40, 600)
+    ctx.set_budget(25, 600)
     pending = []
     string_functions(ctx, dendropy, rng, ctx.pick(300, 3000))
     n_hist = ctx.pick(5000, 40000)
